@@ -127,6 +127,12 @@ FLOAT_GRID = [0.0, -0.0, 1.0, -1.0, 0.5, 2.0, 3.0, -2.5, 1e308, -1e308, 5e-324, 
               -math.inf, math.nan, 0.1, 0.2, 1e16, 123456.789, -7.0]
 
 
+class ErrOrEarly(Err):
+    """the run-time error `msg`, or — for a program with constant operands — ANY of the documented errors reported at
+    parse time (C04: an always-failing constant operation may be reported early even if evaluation would have failed
+    elsewhere first)"""
+
+
 class AnyOf:
     """any of several outcomes is acceptable (the property PERMITS, but does not require, one of them)"""
     def __init__(self, *alts):
@@ -295,6 +301,8 @@ def judge(case, status, text):
         return " and ".join(probs)
     if isinstance(exp, Err):
         if status in ("exec_error", "parse_error") and text.split("|", 1)[0] == exp.msg:
+            return None
+        if isinstance(exp, ErrOrEarly) and status == "parse_error" and text.split("|", 1)[0] in EXEC_ERRORS:
             return None
         return f"expected error `{exp.msg}`, observed {status}: {text}"
     if status != "ok":
@@ -1730,7 +1738,7 @@ def fam_expr_random(tier, seed, extra=()):
         vs = {n_: v for n_, _t, v in g.leaves}
         params = ", ".join(f"{n_}: {t}" for n_, t, _v in g.leaves)
         args = ", ".join(n_ for n_, _t, _v in g.leaves)
-        out.append(Case(f"xr/{k}/folded", txt, exp, vs, what="constant leaves"))
+        out.append(Case(f"xr/{k}/folded", txt, ErrOrEarly(exp.msg) if isinstance(exp, Err) else exp, vs, what="constant leaves"))
         out.append(Case(f"xr/{k}/runtime", f"f := ({params}) -> any {{ return {txt} }}; f({args})", exp, vs, what="run-time leaves"))
     return out
 
